@@ -129,6 +129,28 @@ var c16Family = []famEntry{
 		return &fInlineStruct{Cmds: []string{"c0"}, Rem: &fAliases{Key: "K", Rest: map[string]any{"r": 1}}}
 	}, false},
 	{"aliasnoinline", func() any { return &fAliasNoInline{} }, func() any { return &fAliasNoInline{X: "x", W: 1} }, false},
+	// two distinct struct types that print the same (function-local types called `step`) with different tags:
+	// whatever is remembered per type must be keyed by the type, not by its name
+	{"localstep1", mkLocalStep1, mkLocalStep1, true},
+	{"localstep2", mkLocalStep2, mkLocalStep2, true},
+}
+
+func mkLocalStep1() any {
+	type step struct {
+		Name    string         `yaml:"name"`
+		Command string         `yaml:"command"`
+		Rest    map[string]any `yaml:",inline"`
+	}
+	return &step{}
+}
+
+func mkLocalStep2() any {
+	type step struct {
+		Label   string         `yaml:"label"`
+		Command string         `yaml:"command"`
+		Rest    map[string]any `yaml:",inline"`
+	}
+	return &step{}
 }
 
 // ----- reflective descriptor and dump (VL) -----
@@ -482,6 +504,28 @@ func runC16(c *ctx) error {
 		dst := mk()
 		t := reflect.TypeOf(dst).Elem()
 		doc := c16DocFor(rng, t, 2, ill)
+		if rng.Intn(6) == 0 && doc.Len() > 0 {
+			// the same document as a map that still carries tombstones (keys set and deleted below the compaction
+			// threshold, a rename onto an existing key): dead slots are not part of the input
+			live := doc.Len()
+			for j := 0; j < 1+live/3; j++ {
+				doc.Set(fmt.Sprintf("\x00dead%d", j), "dead value")
+			}
+			for j := 0; j < 1+live/3; j++ {
+				doc.Delete(fmt.Sprintf("\x00dead%d", j))
+			}
+			var firstK string
+			var firstV any
+			doc.Range(func(k string, v any) error {
+				if firstK == "" {
+					firstK, firstV = k, v
+				}
+				return nil
+			})
+			doc.Set("\x00tmp", "stale value")
+			doc.Replace("\x00tmp", firstK, firstV)
+			c.res.Hist("doc.source-with-tombstones")
+		}
 		curDump := vl.Enc(dumpVal(reflect.ValueOf(dst).Elem()))
 		var err error
 		var ans string
